@@ -122,7 +122,7 @@ theorem Aave.liq_tail (hE : EnvOK env) {s s2 : St} (hs : Good cx env s) (hat2 : 
             | some i => i.base
             | none => 0)
           record (Action.liquidation ctok dtok cover cu rp (toX hfB) hfAfter (cx.mul collBaseAfter cst.liqIdx)
-            (cx.mul remaining dst.varIdx))) s2 = (.error e, s') ∧ e.cls = x.name ∧
+            (cx.mul remaining dst.varIdx))) s2 = (.error e, s') ∧ e.cls = x.name ∧ e.isAssertion = false ∧
         proj env s' = p' ∧ s'.wallet = s.wallet ∧ s'.actions = s.actions := by
   have hs2sup : s2.supplies = s.supplies := hat2.sup
   have hs2bor : s2.borrows = s.borrows := hat2.bor
@@ -131,11 +131,11 @@ theorem Aave.liq_tail (hE : EnvOK env) {s s2 : St} (hs : Good cx env s) (hat2 : 
   have hp2 : proj env s2 = proj env s := by unfold proj; rw [hs2sup, hs2bor]
   by_cases hlt : vd < rp
   · rw [if_pos hlt]
-    exact ⟨.liqDebtExceeds, s2, by rw [run_bind_require_false (by simpa using hlt)], rfl, hp2, hs2w, hs2a⟩
+    exact ⟨.liqDebtExceeds, s2, by rw [run_bind_require_false (by simpa using hlt)], rfl, rfl, hp2, hs2w, hs2a⟩
   rw [if_neg hlt, run_bind_require_true (by simpa using hlt)]
   by_cases hli : cst.liqIdx = 0
   · rw [if_pos hli]
-    refine ⟨.divZero, s2, ?_, rfl, hp2, hs2w, hs2a⟩
+    refine ⟨.divZero, s2, ?_, rfl, rfl, hp2, hs2w, hs2a⟩
     simp only [divE, if_pos hli]
     rfl
   rw [if_neg hli]
@@ -152,7 +152,7 @@ theorem Aave.liq_tail (hE : EnvOK env) {s s2 : St} (hs : Good cx env s) (hat2 : 
     rw [hs2sup, hs2bor, put_proj_supply _ _ _ _ hc hs.1.nd]
   by_cases hvi : dst.varIdx = 0
   · rw [if_pos hvi]
-    refine ⟨.divZero, (liqSeize ctok cinfo (subBase cx cinfo.base (cx.div cu cst.liqIdx)) s2).2, ?_, rfl, ?_, ?_, ?_⟩
+    refine ⟨.divZero, (liqSeize ctok cinfo (subBase cx cinfo.base (cx.div cu cst.liqIdx)) s2).2, ?_, rfl, rfl, ?_, ?_, ?_⟩
     · unfold liqCommit
       rw [run_bind_assoc, hseize, run_bind_assoc]
       unfold subBorrowAmount
@@ -232,7 +232,7 @@ theorem C12_sm_doLiquidate_refines (hE : EnvOK env) {s : St} (hs : Good cx env s
     | .rejected => ∃ e s', doLiquidate cx env (some ctok) (some dtok) cover s = (.error e, s') ∧ e.isAssertion = true ∧
         s'.frame = s.frame
     | .raised x p' => ∃ e s', doLiquidate cx env (some ctok) (some dtok) cover s = (.error e, s') ∧ e.cls = x.name ∧
-        proj env s' = p' ∧ s'.wallet = s.wallet ∧ s'.actions = s.actions := by
+        e.isAssertion = false ∧ proj env s' = p' ∧ s'.wallet = s.wallet ∧ s'.actions = s.actions := by
   obtain ⟨⟨cst, hcst⟩, ⟨pc, hpc⟩, ⟨cr, hcr⟩⟩ := hs.1.cv ctok (aget_mem_keys hc)
   obtain ⟨⟨dst, hdst⟩, ⟨pd, hpd⟩, ⟨dr, hdr⟩⟩ := hs.2.cv dtok (aget_mem_keys hd)
   have hrowc := rowOf_eq hcst hpc hcr
@@ -288,13 +288,13 @@ theorem C12_sm_doLiquidate_refines (hE : EnvOK env) {s : St} (hs : Good cx env s
   -- the amounts
   by_cases hpc0 : pc = 0
   · rw [if_pos hpc0, if_pos hpc0]
-    exact ⟨.divZero, s2, rfl, rfl, hp2, hs2w, hs2a⟩
+    exact ⟨.divZero, s2, rfl, rfl, rfl, hp2, hs2w, hs2a⟩
   rw [if_neg hpc0, if_neg hpc0]
   by_cases hcap : cx.mul (cx.div (cx.mul pd toLiq) pc) (cx.add 1 cr.bonus) > cx.mul cinfo.base cst.liqIdx
   · simp only [hcap, decide_true, true_and, if_true]
     by_cases h0 : cx.mul pd (cx.add 1 cr.bonus) = 0
     · rw [if_pos h0, if_pos h0]
-      exact ⟨.divZero, s2, rfl, rfl, hp2, hs2w, hs2a⟩
+      exact ⟨.divZero, s2, rfl, rfl, rfl, hp2, hs2w, hs2a⟩
     rw [if_neg h0, if_neg h0, run_bind_ofRes_ok]
     exact liq_tail hE hs hat2 hc hd hcst hdst cover _ _ vd _ _ _
   · simp only [hcap, decide_false, false_and, if_false, Bool.false_eq_true]
